@@ -106,3 +106,10 @@ claim("C05", EXPRJ,
       "evaluated under the valuation (identifiers substituted, memory selects replaced by the environment's bytes) and TLC "
       "judges every recorded value; NotImplementedError = unsupported is legal, any other exception is a violation.",
       "TLC; z3 as the evaluator of its own terms; operators outside Expr.tla are not generated", "DESIGN.md 5/C05", "ExprJudge")
+
+claim("C06", EXPRJ,
+      "As C05 for TranslatorSMT2: the emitted SMT-LIB2 term is evaluated by the z3 binary (one (simplify term) per valuation, "
+      "identifiers bound by define-fun, memory by a lambda array computing the environment's bytes) and TLC judges the value "
+      "against Expr.tla; enumerated small trees under all valuations + random / rule-shaped trees at widths 1..64, both byte orders.",
+      "TLC; /usr/bin/z3 as evaluator of SMT-LIB2 text; unsupported operators (NotImplementedError) are legal",
+      "DESIGN.md 5/C06", "ExprJudge")
